@@ -5,6 +5,20 @@ import "fmt"
 func registry() []PropSpec {
 	return []PropSpec{
 		{
+			ID: "C18",
+			Quick: []HarnessSpec{
+				{Pkg: pkgGrpcutil, Func: "H18a_q", Unwind: 16, Note: "PercentEncodeMessage on every byte string of length <=3 (all 256 byte values)"},
+				{Pkg: pkgGrpcutil, Func: "H18b_q", Unwind: 12, Note: "header list -> gRPC metadata -> header list: one header, key from {x-a, X-A-Bin, x-b-bin, X-C}, 1..2 values (ASCII or with a 0xff byte)"},
+				{Pkg: pkgInternal, Func: "H18e_q", Unwind: 12, Note: "StrictProtoCodec / StrictJSONCodec: Marshal, MarshalAppend, MarshalStable followed by Unmarshal on an arbitrary message; any 1..3 unknown-field bytes are rejected"},
+			},
+			Thorough: []HarnessSpec{
+				{Pkg: pkgGrpcutil, Func: "H18a_t", Unwind: 20, JobSecs: 1500, ExecSecs: 1200, Note: "byte strings of length <=4"},
+				{Pkg: pkgGrpcutil, Func: "H18b_q", Unwind: 12, Note: "as quick"},
+			},
+			Stubs: []string{"strings.Builder modelled on its buffer", "connect.EncodeBinaryHeader/DecodeBinaryHeader are an inverse-pair contract stub in the engine (real base64 natively)", "proto / protojson (un)marshalling are format-tagged inverse-pair contract stubs ('P' / 'J'); natively the real libraries run on a real message"},
+			Out:   []string{"the libraries' own losslessness (protobuf, protojson, base64, connect.Error, grpc status)"},
+		},
+		{
 			ID: "C17",
 			Quick: []HarnessSpec{
 				{Pkg: pkgRefServer, Func: "H17c_q", Unwind: 10, Note: "rawResponseWriter: every sequence of <=4 operations from {Write, WriteHeader, Flush, setRawResponse}"},
